@@ -244,8 +244,13 @@ class C15(Prop):
         except rfc.PointerError as e:
             want = None
             err = str(e)
-        got_ptr = lib.cJSONUtils_GetPointerCaseSensitive(root, p)
-        stats.inner += 1
+        # errno as left behind by unrelated earlier calls (ERANGE after parsing "1e999", EINVAL, ...) must not matter
+        got_ptr = lib.shim_get_pointer_errno(root, p, 1, 0)
+        for e in (34, 22):
+            if lib.shim_get_pointer_errno(root, p, 1, e) != got_ptr:
+                raise Violation("GetPointerCaseSensitive(%r) gives a different answer when errno is %d on entry (left there by an unrelated earlier call)" % (p, e),
+                                key="lookup:errno")
+        stats.inner += 3
         got = ptrmap.get(got_ptr, "unknown-node") if got_ptr else None
         cls = "valid" if want is not None else {"does not start with '/'": "no_leading_slash", "invalid ~ escape": "invalid_escape",
                                                 "not an array index": "invalid_index", "index out of range": "index_out_of_range",
